@@ -45,6 +45,13 @@ def gen_recipe(rng, big_lengths=False):
         length = rng.choice([1, 1, 2, 2, 3, 3, 4, 5, 6, 8, 10, 12, 16, 20])
         if rng.random() < 0.06:
             length = rng.choice([0, -1, -7])
+        elif rng.random() < 0.04:
+            # long passwords: hundreds and thousands of characters (token counts across 8- and 12-bit boundaries)
+            length = rng.choice([70, 128, 255, 256, 257, 1000])
+            if length >= 1000:
+                require, require_sets = 0, []       # the exact pre-flight arithmetic of the model is for moderate lengths
+            elif len(require_sets) > 2:
+                require_sets = require_sets[:2]
     return Recipe(length, allow, require, exclude, allow_chars, require_sets, exclude_chars)
 
 
